@@ -326,6 +326,17 @@ variant("short-chunk-switch",
 		err = io.ErrUnexpectedEOF
 	}
 	if err != nil {"""))
+variant("rrvs-utc-first",
+  ("client.go", "opts.RequireRecipientValidSince.Format(time.RFC3339)", "opts.RequireRecipientValidSince.UTC().Format(time.RFC3339)"))
+variant("ehlo-ext-stored-early",
+  ("client.go", """	c.ext = ext
+	return err
+}""", """	return err
+}"""),
+  ("client.go", """	ext := make(map[string]string)
+	extList := strings.Split(msg, "\\n")""", """	ext := make(map[string]string)
+	c.ext = ext
+	extList := strings.Split(msg, "\\n")"""))
 if sys.argv[1:] == ['--export']:
     out = [{"id": "benign-" + n, "edits": [{"file": f, "old": o, "new": w} for f, o, w in V[n]]} for n in V]
     json.dump(out, open('/verif/liveness/benign.json', 'w'), indent=1)
